@@ -67,6 +67,7 @@ static void bs_harness_init(void)
   /* ghost indices and points: arbitrary */
   size_t bs_g1, bs_g2, bs_g3, bs_g4, bs_g5, bs_g6, bs_g7;
   gq = bs_g1; gj = bs_g2; gk = bs_g3; gi = bs_g4; gw = bs_g5; gr = bs_g6; bs_veq_w = bs_g7;
+  size_t bs_g10; ge = bs_g10;
   size_t bs_g8, bs_g9; gq2 = bs_g8; gg = (bs_g9 < BS_NG ? bs_g9 : 0);   /* gg ranges over the heap ids */
   T bs_u, bs_x;
   gu = bs_u; gx = bs_x;
